@@ -274,85 +274,95 @@ func genPlainSamRec(t *rapid.T) SamRec {
 
 // rewrite writes an accepted record with the matching writer; inDomain is false for records
 // outside the statement's domain (delimiter bytes inside text fields).
-func rewrite(format string, raw any) (text []byte, inDomain bool, err error) {
+func rewrite(format string, raw any) (text []byte, mtext []byte, inDomain bool, err error) {
 	var w bytes.Buffer
 	var werr error
 	var p any
+	var marshal func() ([]byte, error)
 	switch format {
 	case "fasta":
 		f := raw.(*fasta.Fasta)
 		if f == nil || bytes.ContainsAny(f.Name, "\r\n") || bytes.ContainsAny(f.Sequence, "\r\n>") {
-			return nil, false, nil
+			return nil, nil, false, nil
 		}
-		p = catch(func() { werr = f.Write(&w) })
+		p, marshal = catch(func() { werr = f.Write(&w) }), f.MarshalText
 	case "fastq":
 		f := raw.(*fastq.Fastq)
 		if f == nil || bytes.ContainsAny(f.Name, "\r\n") || bytes.ContainsAny(f.Sequence, "\r\n") || bytes.ContainsAny(f.Quals, "\r\n") {
-			return nil, false, nil
+			return nil, nil, false, nil
 		}
-		p = catch(func() { werr = f.Write(&w) })
+		p, marshal = catch(func() { werr = f.Write(&w) }), f.MarshalText
 	case "sam", "samh":
 		var s *sam.SAM
 		if format == "samh" {
 			sh := raw.(sam.SAMOrHeader)
 			if sh.S == nil {
-				return nil, false, nil // header lines have no writer
+				return nil, nil, false, nil // header lines have no writer
 			}
 			s = sh.S
 		} else {
 			s = raw.(*sam.SAM)
 		}
 		if s == nil {
-			return nil, false, nil
+			return nil, nil, false, nil
 		}
 		for _, f := range []string{s.Qname, s.Rname, s.Cigar, s.Rnext, s.Seq, s.Qual} {
 			if strings.ContainsAny(f, "\t\r\n") {
-				return nil, false, nil
+				return nil, nil, false, nil
 			}
 		}
 		for k, v := range s.Tags {
 			if strings.ContainsAny(k, "\t\r\n") {
-				return nil, false, nil
+				return nil, nil, false, nil
 			}
 			switch x := v.(type) {
 			case string:
 				if strings.ContainsAny(x, "\t\r\n") {
-					return nil, false, nil
+					return nil, nil, false, nil
 				}
 			case byte:
 				if x == '\t' || x == '\r' || x == '\n' {
-					return nil, false, nil
+					return nil, nil, false, nil
 				}
 			}
 		}
-		p = catch(func() { werr = s.Write(&w) })
+		p, marshal = catch(func() { werr = s.Write(&w) }), s.MarshalText
 	case "bed":
 		b := raw.(*bed.BED)
 		if b == nil || strings.ContainsAny(b.Chrom+b.Name+b.Strand, "\t\r\n") {
-			return nil, false, nil
+			return nil, nil, false, nil
 		}
-		p = catch(func() { werr = b.Write(&w) })
+		p, marshal = catch(func() { werr = b.Write(&w) }), b.MarshalText
 	case "newick":
 		n := raw.(*newick.Node)
 		if n == nil {
-			return nil, false, nil
+			return nil, nil, false, nil
 		}
 		for x := range n.PreOrder() {
 			if strings.ContainsAny(x.Name, "\t\r\n") {
-				return nil, false, nil
+				return nil, nil, false, nil
 			}
 		}
-		p = catch(func() { werr = n.Write(&w) })
+		p, marshal = catch(func() { werr = n.Write(&w) }), n.MarshalText
 	default:
-		return nil, false, nil
+		return nil, nil, false, nil
 	}
 	if p != nil {
-		return nil, true, fmt.Errorf("writer panicked on an accepted record: %v", p)
+		return nil, nil, true, fmt.Errorf("writer panicked on an accepted record: %v", p)
 	}
 	if werr != nil {
-		return nil, true, fmt.Errorf("writer failed on an accepted record: %v", werr)
+		return nil, nil, true, fmt.Errorf("writer failed on an accepted record: %v", werr)
 	}
-	return w.Bytes(), true, nil
+	// MarshalText is the other face of the same writer
+	var mt []byte
+	var merr error
+	if p := catch(func() { mt, merr = marshal() }); p != nil || merr != nil {
+		return nil, nil, true, fmt.Errorf("MarshalText of an accepted record failed: panic=%v err=%v (Write produces %s)", p, merr, gen.Abbrev(w.Bytes()))
+	}
+	if !bytes.Equal(mt, w.Bytes()) {
+		return nil, nil, true, fmt.Errorf("MarshalText of an accepted record gives %s, Write gives %s", gen.Abbrev(mt), gen.Abbrev(w.Bytes()))
+	}
+	return w.Bytes(), mt, true, nil
 }
 
 func checkC11(c C11Case, o *Obs) error {
@@ -388,6 +398,7 @@ func checkC11(c C11Case, o *Obs) error {
 		return fmt.Errorf("%s reader yields more than %d items for %d input bytes (does not terminate?)", c.Format, limit, len(text))
 	}
 	accepted, rejected := 0, 0
+	var keeper marshalKeeper
 	var whole bytes.Buffer
 	var wholeWant []string
 	for i, it := range items {
@@ -399,7 +410,10 @@ func checkC11(c C11Case, o *Obs) error {
 			return fmt.Errorf("%s reader yields a nil record without an error at item %d (input %s)", c.Format, i, gen.Abbrev(text))
 		}
 		accepted++
-		rt, inDomain, err := rewrite(c.Format, it.Raw)
+		rt, mt, inDomain, err := rewrite(c.Format, it.Raw)
+		if mt != nil {
+			keeper.keep(fmt.Sprintf("item %d", i), mt)
+		}
 		if !inDomain {
 			o.Class("accepted, outside domain")
 			continue
@@ -428,6 +442,9 @@ func checkC11(c C11Case, o *Obs) error {
 		if !ok {
 			return fmt.Errorf("%s: the %d accepted records written one after another read back as %s (panic %v; input %s)", c.Format, len(wholeWant), describeItems(back), p, gen.Abbrev(text))
 		}
+	}
+	if err := keeper.verify(); err != nil {
+		return fmt.Errorf("%s: %v (input %s)", c.Format, err, gen.Abbrev(text))
 	}
 	o.ClassIf(accepted > 0, "accepted")
 	o.ClassIf(rejected > 0, "rejected")
@@ -470,6 +487,12 @@ func checkSamLine(c C11Case, o *Obs) error {
 			fields[11+cr.Arg%(len(fields)-11)] = cr.Text
 		} else {
 			fields = append(fields, cr.Text)
+		}
+		// every other time a well-formed tag of the same name comes first on the line (a repeated
+		// name does not make the ill-formed occurrence acceptable)
+		if i := strings.Index(cr.Text, ":"); cr.Arg%2 == 1 && i > 0 && strings.Count(cr.Text, ":") >= 2 && len(fields) >= 11 {
+			o.Class("ill-formed tag repeats the name of a well-formed one")
+			fields = append(fields[:11:11], append([]string{cr.Text[:i] + ":i:7"}, fields[11:]...)...)
 		}
 	default:
 		return nil
